@@ -117,6 +117,7 @@ func init() {
 		e := ex.newErr()
 		rt := call.Type().(*types.Tuple).At(0).Type().(*types.Pointer).Elem()
 		ex.randInts = append(ex.randInts, n)
+		ex.randIntFail = append(ex.randIntFail, And(reach, Not(ok)))
 		return TupleV{PtrV{Ref: Ite(ok, ref, Int(0)), T: rt}, IfaceV{Tag: Ite(ok, Int(0), e.Tag), Val: Ite(ok, Int(0), e.Val.(*Term))}}, reach
 	}
 }
